@@ -326,6 +326,12 @@ func runC10(c *ctx) {
 					if err := kv.(*buffer.KeyValue).Flush(); err != nil {
 						fail(i, "Flush error "+err.Error())
 					}
+					// after a flush the backing store alone holds the map (what a close and reopen would find)
+					if back, err := c10Dump(backKV, "", ""); err == nil {
+						if want := ref.rng("", ""); !pairsEq(back, want) {
+							fail(i, fmt.Sprintf("after Flush the backing store holds %q, the map is %q", back, want))
+						}
+					}
 					out = "RUnit"
 				case "reopen":
 					if err := kv.Close(); err != nil {
